@@ -15,7 +15,8 @@ def base_files(r, methods):
           ("e.dat", c01.gen_content(r, 2, r.randrange(120, 300)), m(), 1),
           ("fix\\k.dat", c01.gen_content(r, 1, r.randrange(30, 120)), "0", 2),
           ("multi.dat", c01.gen_content(r, r.choice([2, 3, 4]), r.randrange(1100, 1700)), m(), 0),
-          ("multie.dat", c01.gen_content(r, r.choice([2, 4]), r.randrange(1030, 1400)), m(), r.choice([1, 2]))]
+          ("multie.dat", c01.gen_content(r, r.choice([2, 4]), r.randrange(1030, 1400)), m(), r.choice([1, 2])),
+          ("(2)map.w3m", c01.gen_content(r, 1, r.randrange(600, 1200)), "0", 0)]      # a user file whose name looks like a special one
     r.shuffle(fs)
     return fs
 
@@ -235,6 +236,12 @@ def run(tier, seed, replay=None):
                     shape = ("single" if info[3] & FL_SINGLE else "multi") + ("-compressed" if info[3] & FL_COMPRESS else "") + ("-encrypted" if info[3] & FL_ENC else "")
                     res.failing.append(("undetected-%s-%s" % (kind, shape), "altered bytes at 0x%x (len %d) inside the protected region of %r: read returns different content and verification passes"
                                         % (off, ln, n), case))
+                elif rd.startswith("OK:") and rd != "OK:" + C.hexs(orig[n]) and va == "1" and not (n.startswith("(") and n.endswith(")")) \
+                        and file_region(info)[0] <= span[0] and span[1] <= file_region(info)[1]:
+                    # the read hands out different content without an error and the alteration touches nothing but this file's data (the listing is
+                    # intact): the all-files verification of the archive is then the caller's only other line of defence and must not pass
+                    res.failing.append(("verify-archive-misses-damaged-file", "altered bytes at 0x%x inside the data of %r: read returns different content, SFileVerifyFile reports the damage, "
+                                        "SFileVerifyArchive passes" % (off, n), case))
                 elif rd.startswith("OK:") and rd == "OK:" + C.hexs(orig[n]):
                     stats["content_identical"] += 1
                 else:
@@ -280,12 +287,20 @@ def run(tier, seed, replay=None):
             f.write(bytes(r.randrange(256) for _ in range(total)))
         sweeps.append("sigsweep %s %x %x %x %x" % (p, begin, size, sp, step))
         sweeps.append("sigplusn %s %x %x %x" % (p, begin, size, sp))
+        if i < 2:
+            sweeps.append("signmany %s %x %x %x %x" % (p, begin, size, sp, 4000 if big else 1200))
     swo = C.run_lines(iv, sweeps, shards=min(C.NPROC, len(sweeps)), timeout=1500, env=env)
     tried = 0
     for s, o in zip(sweeps, swo):
         res.case(s.replace(base, "<dir>"), nontrivial=True)
         case = {"command": s.replace(base, "<dir>"), "out": o}
         p = o.split(" ")
+        if s.startswith("signmany"):
+            if len(p) != 6 or p[0] != "SIGNED":
+                res.failing.append(("signature-sweep-error", "signing many variants failed: " + o[:60], case))
+            elif p[5] != "-":
+                res.failing.append(("own-signature-rejected", "signatures produced by the library do not verify (variants %s; %s of %s signatures have a zero top byte)" % (p[5], p[3], p[1]), case))
+            continue
         if s.startswith("sigsweep"):
             if len(p) != 5:
                 res.failing.append(("signature-sweep-error", "signature sweep failed: " + o[:60], case))
